@@ -869,6 +869,91 @@ fn main() {
         });
         std::process::exit(0);
       }
+      "pub_stalled_subscriber" => {
+        // public API: PUB (SNDHWM 1, default SNDTIMEO) with two subscribers over tcp: a raw peer that subscribes to
+        // everything and then never reads, and a real SUB socket. 64 KiB messages are published until one publish call
+        // does not return within 2 s (the stalled subscriber's queue is full); the healthy SUB's reception is counted.
+        let rt = tokio::runtime::Builder::new_multi_thread().worker_threads(4).enable_all().build().unwrap();
+        let res = rt.block_on(async move {
+          use std::io::{Read, Write};
+          let ctx = rzmq::Context::new().unwrap();
+          let publ = ctx.socket(rzmq::SocketType::Pub).unwrap();
+          publ.set_option(rzmq::socket::options::SNDHWM, 1i32).await.unwrap();
+          publ.bind("tcp://127.0.0.1:0").await.unwrap();
+          let ep = String::from_utf8(publ.get_option(rzmq::socket::options::LAST_ENDPOINT).await.unwrap()).unwrap();
+          let addr = ep.trim_start_matches("tcp://").to_string();
+          let sub = ctx.socket(rzmq::SocketType::Sub).unwrap();
+          sub.set_option(rzmq::socket::options::RCVTIMEO, 300i32).await.unwrap();
+          sub.set_option_raw(rzmq::socket::options::SUBSCRIBE, b"").await.unwrap();
+          sub.connect(&ep).await.unwrap();
+          let (stop_tx, stop_rx) = std::sync::mpsc::channel::<()>();
+          let stalled = tokio::task::spawn_blocking(move || {
+            let mut greeting = vec![0xFFu8, 0, 0, 0, 0, 0, 0, 0, 0, 0x7F, 3, 1];
+            let mut mech = b"NULL".to_vec();
+            mech.resize(20, 0);
+            greeting.extend_from_slice(&mech);
+            greeting.push(0);
+            greeting.extend_from_slice(&[0u8; 31]);
+            let mut ready = b"\x05READY\x0bSocket-Type\x00\x00\x00\x03SUB".to_vec();
+            let mut hs = greeting.clone();
+            hs.push(0x04);
+            hs.push(ready.len() as u8);
+            hs.append(&mut ready);
+            // subscribe to everything: a data frame 0x01 (ZMTP 3.0 style subscription message)
+            hs.extend_from_slice(&[0x00, 0x01, 0x01]);
+            let mut s = std::net::TcpStream::connect(addr).unwrap();
+            s.write_all(&hs).unwrap();
+            let mut buf = [0u8; 64];
+            let _ = s.read_exact(&mut buf);
+            let _ = stop_rx.recv_timeout(Duration::from_secs(40));
+            drop(s);
+          });
+          tokio::time::sleep(Duration::from_millis(500)).await;
+          let payload = vec![0x5Au8; 64 * 1024];
+          let mut published = 0usize;
+          let mut blocked_ms = None;
+          let counter = std::sync::Arc::new(std::sync::atomic::AtomicUsize::new(0));
+          let c2 = counter.clone();
+          let reader = tokio::spawn(async move {
+            loop {
+              match sub.recv().await {
+                Ok(_) => {
+                  c2.fetch_add(1, std::sync::atomic::Ordering::SeqCst);
+                }
+                Err(_) => {
+                  if c2.load(std::sync::atomic::Ordering::SeqCst) > 0 {
+                    // keep going: a gap only means the publisher is not publishing
+                  }
+                }
+              }
+            }
+          });
+          for _ in 0..400 {
+            let t0 = Instant::now();
+            let fut = publ.send(rzmq::Msg::from_vec(payload.clone()));
+            tokio::pin!(fut);
+            match tokio::time::timeout(Duration::from_secs(2), &mut fut).await {
+              Ok(_) => published += 1,
+              Err(_) => {
+                // this publish call is blocked: how long does it stay blocked (up to 4 more seconds)?
+                let _ = tokio::time::timeout(Duration::from_secs(4), &mut fut).await;
+                blocked_ms = Some(t0.elapsed().as_millis());
+                break;
+              }
+            }
+          }
+          tokio::time::sleep(Duration::from_millis(300)).await;
+          reader.abort();
+          let _ = stop_tx.send(());
+          let _ = stalled.await;
+          (published, blocked_ms, counter.load(std::sync::atomic::Ordering::SeqCst))
+        });
+        match res.1 {
+          Some(ms) => println!("pub_stalled_subscriber published={} healthy_sub_received={} PUBLISHER BLOCKED for {} ms by the stalled subscriber", res.0, res.2, ms),
+          None => println!("pub_stalled_subscriber published={} healthy_sub_received={} publisher never blocked", res.0, res.2),
+        }
+        std::process::exit(0);
+      }
       "router_multipart_flags" => {
         // public API: ROUTER.send_multipart([identity, "a", "b"]) with NO MORE flags set by the application, to a DEALER
         // peer over tcp; prints how the payload arrives
